@@ -831,3 +831,30 @@ func goTargetsIn(fn *ssa.Function) []*ssa.Function {
 	})
 	return out
 }
+
+// forEachInstrDeep visits fn's instructions and those of the in-package functions it
+// calls statically (to the given depth), each function once.
+func forEachInstrDeep(p *Prog, fn *ssa.Function, depth int, f func(ssa.Instruction)) {
+	seen := map[*ssa.Function]bool{}
+	var walk func(g *ssa.Function, d int)
+	walk = func(g *ssa.Function, d int) {
+		if g == nil || g.Blocks == nil || seen[g] {
+			return
+		}
+		seen[g] = true
+		forEachInstr(g, func(in ssa.Instruction) {
+			f(in)
+			if d < depth {
+				if ci, ok := in.(ssa.CallInstruction); ok {
+					if sc := ci.Common().StaticCallee(); sc != nil && p.inPkg(sc) {
+						walk(sc, d+1)
+					}
+				}
+			}
+		})
+		for _, an := range g.AnonFuncs {
+			walk(an, d)
+		}
+	}
+	walk(fn, 0)
+}
